@@ -21,28 +21,35 @@ Definition synced (sch : schema) (m : mgr) : Prop :=
   d_db (m_pri m) = d_db (m_pub m) /\ d_q (m_pri m) = qempty sch /\ d_q (m_pub m) = qempty sch /\
   d_tries (m_pub m) = 0.
 
-(* a history of process_queued_ops calls in which the private write succeeds:
-   (batch, public fault).  [run_hist] also tracks the batches whose public
+(* a history of the scheduler's database calls in which the private write
+   succeeds: process_queued_ops with a batch and a public fault, or the health
+   check recover_pub_from_pri.  [run_hist] also tracks the batches whose public
    write is still outstanding. *)
-Definition hist := list (batch * fault).
-Fixpoint run_hist (sch : schema) (m : mgr) (pend : list batch) (h : hist) : mgr * list batch :=
+Inductive hev := HProc (b : batch) (f : fault) | HHealth.
+Definition hist := list hev.
+Definition health_pend (max : nat) (m : mgr) (pend : list batch) : list batch :=
+  if Nat.leb max (d_tries (m_pub m)) then [] else pend.
+Fixpoint run_hist (sch : schema) (max : nat) (m : mgr) (pend : list batch) (h : hist)
+  : mgr * list batch :=
   match h with
   | [] => (m, pend)
-  | (b, f) :: r =>
+  | HProc b f :: r =>
       let '(m', o) := process sch b None f m in
-      run_hist sch m' (match o with ORetry => pend ++ [b] | _ => [] end) r
+      run_hist sch max m' (match o with ORetry => pend ++ [b] | _ => [] end) r
+  | HHealth :: r => run_hist sch max (health max m) (health_pend max m pend) r
   end.
 
 (* every public write of the history that went through had a commuting merged batch *)
-Fixpoint commuting_hist (sch : schema) (m : mgr) (pend : list batch) (h : hist) : Prop :=
+Fixpoint commuting_hist (sch : schema) (max : nat) (m : mgr) (pend : list batch) (h : hist) : Prop :=
   match h with
   | [] => True
-  | (b, f) :: r =>
+  | HProc b f :: r =>
       let '(m', o) := process sch b None f m in
       match o with
-      | ORetry => commuting_hist sch m' (pend ++ [b]) r
-      | _ => commutes sch (d_db (m_pub m)) (pend ++ [b]) /\ commuting_hist sch m' [] r
+      | ORetry => commuting_hist sch max m' (pend ++ [b]) r
+      | _ => commutes sch (d_db (m_pub m)) (pend ++ [b]) /\ commuting_hist sch max m' [] r
       end
+  | HHealth :: r => commuting_hist sch max (health max m) (health_pend max m pend) r
   end.
 
 (* ================= transactions ================= *)
@@ -276,26 +283,54 @@ Proof.
     rewrite Q2. exact Hq.
 Qed.
 
-(* ---------- retry: the queue invariant holds along every history ---------- *)
-Lemma hist_qinv sch : forall h m pend m1 pend1,
-  qinv sch m pend -> run_hist sch m pend h = (m1, pend1) -> qinv sch m1 pend1.
+(* ---------- recovery ---------- *)
+Lemma health_below max m : d_tries (m_pub m) < max -> health max m = m.
+Proof. intros H. unfold health. destruct (Nat.leb_spec max (d_tries (m_pub m))); [lia|reflexivity]. Qed.
+
+Lemma health_recovers max m : max <= d_tries (m_pub m) ->
+  d_db (m_pub (health max m)) = d_db (m_pri m) /\
+  m_pri (health max m) = m_pri m /\
+  d_tries (m_pub (health max m)) = 0 /\
+  d_q (m_pub (health max m)) = clear_queues (d_q (m_pub m)).
+Proof. intros H. unfold health. destruct (Nat.leb_spec max (d_tries (m_pub m))); [cbn; auto|lia]. Qed.
+
+(* a recovery re-establishes the synchronised state *)
+Lemma health_synced sch max m pend :
+  qinv sch m pend -> max <= d_tries (m_pub m) -> synced sch (health max m).
 Proof.
-  induction h as [|[b f] r IH]; intros m pend m1 pend1 Hinv; cbn [run_hist].
+  intros (I1 & I2) H. unfold health. destruct (Nat.leb_spec max (d_tries (m_pub m))); [|lia].
+  repeat split; cbn; auto. apply clear_is_qempty. rewrite I2, enq_all_length. apply qempty_length.
+Qed.
+
+Lemma health_qinv sch max m pend :
+  qinv sch m pend -> qinv sch (health max m) (health_pend max m pend).
+Proof.
+  intros Hq. unfold health_pend. destruct (Nat.leb_spec max (d_tries (m_pub m))) as [H|H].
+  - apply synced_qinv. eapply health_synced; eauto.
+  - rewrite health_below by lia. exact Hq.
+Qed.
+
+(* ---------- retry: the queue invariant holds along every history ---------- *)
+Lemma hist_qinv sch max : forall h m pend m1 pend1,
+  qinv sch m pend -> run_hist sch max m pend h = (m1, pend1) -> qinv sch m1 pend1.
+Proof.
+  induction h as [|[b f|] r IH]; intros m pend m1 pend1 Hinv; cbn [run_hist].
   - intros [= <- <-]. exact Hinv.
   - destruct (process sch b None f m) as [m' o] eqn:Ep.
     destruct (process_step _ _ _ _ _ _ _ Hinv Ep) as (_ & _ & Hs).
     destruct o; try (destruct Hs as [Hq _]; eapply IH; eauto).
+  - apply IH. now apply health_qinv.
 Qed.
 
 (* ---------- convergence along commuting histories ---------- *)
-Lemma hist_converges sch : forall h m pend m1 pend1,
+Lemma hist_converges sch max : forall h m pend m1 pend1,
   qinv sch m pend ->
   d_db (m_pri m) = apply_seq sch (d_db (m_pub m)) pend ->
-  commuting_hist sch m pend h ->
-  run_hist sch m pend h = (m1, pend1) ->
+  commuting_hist sch max m pend h ->
+  run_hist sch max m pend h = (m1, pend1) ->
   d_db (m_pri m1) = apply_seq sch (d_db (m_pub m1)) pend1.
 Proof.
-  induction h as [|[b f] r IH]; intros m pend m1 pend1 Hinv Hdb; cbn [run_hist commuting_hist].
+  induction h as [|[b f|] r IH]; intros m pend m1 pend1 Hinv Hdb; cbn [run_hist commuting_hist].
   - intros _ [= <- <-]. exact Hdb.
   - destruct (process sch b None f m) as [m' o] eqn:Ep.
     destruct (process_step _ _ _ _ _ _ _ Hinv Ep) as (Hr & Hpri & Hs).
@@ -309,31 +344,10 @@ Proof.
     + congruence.
     + destruct Hs as (Hq & Hpub & _). intros Hrest. eapply IH; eauto.
       rewrite Hpri, Hpub. exact Hseq.
-Qed.
-
-(* ---------- recovery ---------- *)
-Lemma health_below max m : d_tries (m_pub m) < max -> health max m = m.
-Proof. intros H. unfold health. destruct (Nat.leb_spec max (d_tries (m_pub m))); [lia|reflexivity]. Qed.
-
-Lemma health_recovers max m : max <= d_tries (m_pub m) ->
-  d_db (m_pub (health max m)) = d_db (m_pri m) /\
-  m_pri (health max m) = m_pri m /\
-  d_tries (m_pub (health max m)) = 0 /\
-  d_q (m_pub (health max m)) = d_q (m_pub m).
-Proof. intros H. unfold health. destruct (Nat.leb_spec max (d_tries (m_pub m))); [cbn; auto|lia]. Qed.
-
-(* the model of the proposed fix: recovery also drops the public DAO's queue *)
-Definition health_fixed (max : nat) (m : mgr) : mgr :=
-  if Nat.leb max (d_tries (m_pub m))
-  then {| m_pri := m_pri m;
-          m_pub := {| d_db := d_db (m_pri m); d_q := clear_queues (d_q (m_pub m)); d_tries := 0 |} |}
-  else m.
-
-Lemma health_fixed_synced sch max m pend :
-  qinv sch m pend -> max <= d_tries (m_pub m) -> synced sch (health_fixed max m).
-Proof.
-  intros (I1 & I2) H. unfold health_fixed. destruct (Nat.leb_spec max (d_tries (m_pub m))); [|lia].
-  repeat split; cbn; auto. apply clear_is_qempty. rewrite I2, enq_all_length. apply qempty_length.
+  - apply IH; [now apply health_qinv|].
+    unfold health_pend. destruct (Nat.leb_spec max (d_tries (m_pub m))) as [H|H].
+    + destruct (health_recovers max m H) as (A & B & _). rewrite A, B. reflexivity.
+    + rewrite health_below by lia. exact Hdb.
 Qed.
 
 (* ================= per-table decomposition ================= *)
@@ -474,15 +488,23 @@ Proof.
     + intros _. rewrite Q2. exact Q4.
 Qed.
 
-Lemma hist_tries sch : forall h m pend m1 pend1,
-  qinv sch m pend -> tinv m pend -> run_hist sch m pend h = (m1, pend1) -> tinv m1 pend1.
+Lemma health_tinv max m pend : tinv m pend -> tinv (health max m) (health_pend max m pend).
 Proof.
-  induction h as [|[b f] r IH]; intros m pend m1 pend1 Hq Ht; cbn [run_hist].
+  intros Ht. unfold health_pend. destruct (Nat.leb_spec max (d_tries (m_pub m))) as [H|H].
+  - destruct (health_recovers max m H) as (_ & _ & C & _). split; [exact C|congruence].
+  - rewrite health_below by lia. exact Ht.
+Qed.
+
+Lemma hist_tries sch max : forall h m pend m1 pend1,
+  qinv sch m pend -> tinv m pend -> run_hist sch max m pend h = (m1, pend1) -> tinv m1 pend1.
+Proof.
+  induction h as [|[b f|] r IH]; intros m pend m1 pend1 Hq Ht; cbn [run_hist].
   - intros [= <- <-]. exact Ht.
   - destruct (process sch b None f m) as [m' o] eqn:Ep.
     pose proof (process_tries _ _ _ _ _ _ _ Hq Ht Ep) as Ht'.
     destruct (process_step _ _ _ _ _ _ _ Hq Ep) as (_ & _ & Hs).
     destruct o; try (destruct Hs as [Hq' _]; eapply IH; eauto).
+  - apply IH; [now apply health_qinv|now apply health_tinv].
 Qed.
 
 (* ================= statements at the level of process_queued_ops ================= *)
@@ -501,8 +523,8 @@ Qed.
 Lemma synced_tinv sch m : synced sch m -> tinv m [].
 Proof. intros (_ & _ & _ & H). split; [exact H|congruence]. Qed.
 
-Lemma hist_retry sch m0 h m pend :
-  synced sch m0 -> run_hist sch m0 [] h = (m, pend) ->
+Lemma hist_retry sch max m0 h m pend :
+  synced sch m0 -> run_hist sch max m0 [] h = (m, pend) ->
   d_q (m_pub m) = enq_all sch (qempty sch) (concat pend) /\
   d_tries (m_pub m) = length pend /\
   forall b f m' o, process sch b None f m = (m', o) ->
@@ -516,8 +538,8 @@ Lemma hist_retry sch m0 h m pend :
     end.
 Proof.
   intros Hs Hr.
-  pose proof (hist_qinv _ _ _ _ _ _ (synced_qinv _ _ Hs) Hr) as Hq.
-  pose proof (hist_tries _ _ _ _ _ _ (synced_qinv _ _ Hs) (synced_tinv _ _ Hs) Hr) as Ht.
+  pose proof (hist_qinv _ _ _ _ _ _ _ (synced_qinv _ _ Hs) Hr) as Hq.
+  pose proof (hist_tries _ _ _ _ _ _ _ (synced_qinv _ _ Hs) (synced_tinv _ _ Hs) Hr) as Ht.
   split; [apply Hq|]. split; [apply Ht|].
   intros b f m' o Hp.
   destruct (process_step _ _ _ _ _ _ _ Hq Hp) as (Hnr & _ & Hstep).
@@ -529,21 +551,50 @@ Proof.
   - destruct Hstep as ((_ & Q) & D & T). repeat split; auto. rewrite T. f_equal. apply Ht.
 Qed.
 
-Lemma hist_converges_synced sch m0 h m pend :
-  synced sch m0 -> commuting_hist sch m0 [] h -> run_hist sch m0 [] h = (m, pend) ->
+Lemma hist_converges_synced sch max m0 h m pend :
+  synced sch m0 -> commuting_hist sch max m0 [] h -> run_hist sch max m0 [] h = (m, pend) ->
   d_db (m_pri m) = apply_seq sch (d_db (m_pub m)) pend.
 Proof.
   intros Hs Hc Hr. eapply hist_converges; eauto using synced_qinv.
   destruct Hs as (H & _). exact H.
 Qed.
 
+(* after max consecutive failed public writes the health check re-synchronises *)
 Lemma hist_recover sch max m0 h m pend :
-  synced sch m0 -> run_hist sch m0 [] h = (m, pend) -> max <= length pend ->
-  d_db (m_pub (health max m)) = d_db (m_pri (health max m)) /\
-  m_pri (health max m) = m_pri m /\ d_tries (m_pub (health max m)) = 0.
+  synced sch m0 -> run_hist sch max m0 [] h = (m, pend) -> max <= length pend ->
+  synced sch (health max m) /\ m_pri (health max m) = m_pri m.
 Proof.
   intros Hs Hr Hl.
-  pose proof (hist_tries _ _ _ _ _ _ (synced_qinv _ _ Hs) (synced_tinv _ _ Hs) Hr) as [Ht _].
+  pose proof (hist_qinv _ _ _ _ _ _ _ (synced_qinv _ _ Hs) Hr) as Hq.
+  pose proof (hist_tries _ _ _ _ _ _ _ (synced_qinv _ _ Hs) (synced_tinv _ _ Hs) Hr) as [Ht _].
   assert (Hm : max <= d_tries (m_pub m)) by lia.
-  destruct (health_recovers max m Hm) as (A & B & C & _). rewrite B. auto.
+  split; [eapply health_synced; eauto|]. now destruct (health_recovers max m Hm) as (_ & B & _).
+Qed.
+
+Lemma commutes_single sch d b : commutes sch d [b].
+Proof. unfold commutes. cbn. now rewrite app_nil_r. Qed.
+
+(* the first write after a recovery: public = private again *)
+Lemma recovered_write sch m b m' o :
+  synced sch m -> process sch b None None m = (m', o) -> d_db (m_pub m') = d_db (m_pri m').
+Proof.
+  intros Hs Hp.
+  assert (Hc : commuting_hist sch 0 m [] [HProc b None]).
+  { cbn [commuting_hist]. rewrite Hp. unfold process in Hp.
+    destruct (exec_queued sch false None _) as [p2 o1] eqn:E1 in Hp.
+    assert (o <> ORetry).
+    { destruct o1; try (injection Hp as _ <-; discriminate);
+        destruct (exec_queued sch true None _) as [q2 o2] eqn:E2 in Hp; injection Hp as _ <-;
+        destruct (exec_nofault_outcome _ _ _ _ _ E2) as [-> | ->]; discriminate. }
+    destruct o; try congruence; (split; [apply commutes_single|exact I]). }
+  assert (Hr : run_hist sch 0 m [] [HProc b None] = (m', match o with ORetry => [[] ++ b] | _ => [] end)).
+  { cbn [run_hist]. rewrite Hp. destruct o; reflexivity. }
+  pose proof (hist_converges_synced sch 0 m _ _ _ Hs Hc Hr) as H.
+  destruct o; cbn in H; try (symmetry; exact H).
+  exfalso. clear H Hr. cbn [commuting_hist] in Hc. rewrite Hp in Hc.
+  unfold process in Hp.
+  destruct (exec_queued sch false None _) as [p2 o1] eqn:E1 in Hp.
+  destruct o1; try discriminate;
+    destruct (exec_queued sch true None _) as [q2 o2] eqn:E2 in Hp; injection Hp as _ Ho; subst o2;
+    destruct (exec_nofault_outcome _ _ _ _ _ E2); discriminate.
 Qed.
